@@ -1801,6 +1801,44 @@ fn self_test() -> Result<(), String> {
 }
 
 pub fn run() {
+    // `Default::default()` and `GraphLike::new()` must be the same empty graph in each backend
+    // (and the two backends' empty graphs must answer alike); observed through public queries
+    {
+        use quizx::graph::GraphLike;
+        macro_rules! empty_checks {
+            ($G:ty, $name:literal) => {{
+                let (a, b): ($G, $G) = (<$G>::default(), <$G as GraphLike>::new());
+                let same = a.num_vertices() == b.num_vertices()
+                    && a.num_edges() == b.num_edges()
+                    && a.vindex() == b.vindex()
+                    && a.scalar() == b.scalar()
+                    && a.inputs() == b.inputs()
+                    && a.outputs() == b.outputs()
+                    && a.scalar_factors().count() == b.scalar_factors().count()
+                    && a == b;
+                if !same || *b.scalar() != quizx::scalar::Scalar4::new([1, 0, 0, 0], 0) {
+                    ctx().violation(
+                        concat!("default-vs-new|empty-graphs-differ|", $name),
+                        "scripted",
+                        0,
+                        json!({"backend": $name, "default_scalar": format!("{}", a.scalar()), "new_scalar": format!("{}", b.scalar()), "default_vertices": a.num_vertices(), "new_vertices": b.num_vertices()}),
+                    );
+                }
+                // the same first steps on both must give the same answers
+                let (mut a, mut b) = (a, b);
+                let (va, vb) = (a.add_vertex(VType::Z), b.add_vertex(VType::Z));
+                a.scalar_mut().mul_sqrt2_pow(3);
+                b.scalar_mut().mul_sqrt2_pow(3);
+                if va != vb || a.scalar() != b.scalar() || a != b {
+                    ctx().violation(concat!("default-vs-new|diverge-after-identical-edits|", $name), "scripted", 0, json!({"backend": $name, "default_scalar": format!("{}", a.scalar()), "new_scalar": format!("{}", b.scalar())}));
+                }
+            }};
+        }
+        empty_checks!(quizx::vec_graph::Graph, "vec");
+        empty_checks!(quizx::hash_graph::Graph, "hash");
+        ctx().count("scripted:default-vs-new", 2);
+    }
+
     let c = ctx();
     if let Err(e) = self_test() {
         c.harness_error(&format!("C09 self-test: {e}"));
